@@ -9,7 +9,7 @@ use crate::world::{Cond, Opts, Outcome, Scenario, Step};
 use std::collections::BTreeMap;
 
 pub const VARIANTS: &[&str] = &[
-    "base", "identical", "pool-added", "pool-removed", "server-changed", "password-changed", "pool-size-changed", "mode-changed", "general-changed", "invalid-toml", "invalid-two-primaries", "invalid-default-role",
+    "base", "identical", "pool-added", "pool-removed", "server-changed", "password-changed", "pool-size-changed", "mode-changed", "general-changed", "invalid-toml", "invalid-two-primaries", "invalid-default-role", "with-replica", "roles-swapped",
 ];
 
 fn is_valid(v: &str) -> bool {
@@ -39,12 +39,28 @@ pub fn variant(v: &str) -> (String, BTreeMap<String, String>) {
         "pool-size-changed" => pools[0] = pool("db", "pg-a", "alice", "alicepw", 1, "transaction"),
         "mode-changed" => pools[0] = pool("db", "pg-a", "alice", "alicepw", 2, "session"),
         "general-changed" => cfg_general = "log_client_connections = true\n".into(),
+        // a failover: same hosts, primary and replica trade places (default_role = primary)
+        "with-replica" => {
+            pools[0].shards[0].servers = vec![("pg-a".into(), 5432, "primary".into()), ("pg-a2".into(), 5432, "replica".into())];
+            pools[0].extra = "default_role = \"primary\"\n".into();
+        }
+        "roles-swapped" => {
+            pools[0].shards[0].servers = vec![("pg-a".into(), 5432, "replica".into()), ("pg-a2".into(), 5432, "primary".into())];
+            pools[0].extra = "default_role = \"primary\"\n".into();
+        }
         "invalid-two-primaries" => pools[0].shards[0].servers.push(("pg-a2".into(), 5432, "primary".into())),
         "invalid-default-role" => pools[0].extra = "default_role = \"leader\"\n".into(),
         "invalid-toml" => {}
         _ => panic!("variant"),
     }
-    let map: BTreeMap<String, String> = pools.iter().map(|p| (p.name.clone(), p.shards[0].servers[0].0.clone())).collect();
+    // where a pool's transactions go: its primary (every variant routes to the primary)
+    let map: BTreeMap<String, String> = pools
+        .iter()
+        .map(|p| {
+            let srv = &p.shards[0].servers;
+            (p.name.clone(), srv.iter().find(|s| s.2 == "primary").unwrap_or(&srv[0]).0.clone())
+        })
+        .collect();
     let mut cfg = Cfg { pools, ..Default::default() };
     cfg.general_extra = cfg_general;
     let mut toml = cfg.toml();
@@ -350,6 +366,9 @@ pub fn build(tier: &str) -> SimCheck {
         for (o, n) in pairs {
             scenarios.push(scenario(o, n, via));
         }
+        // a change of roles only
+        scenarios.push(scenario("with-replica", "roles-swapped", via));
+        scenarios.push(scenario("roles-swapped", "with-replica", via));
     }
     scenarios.push(retry_scenario("admin"));
     scenarios.push(retry_scenario("sighup"));
